@@ -23,6 +23,9 @@ import (
 	"github.com/mdzio/go-mqtt/message"
 )
 
+// maxRemainingLength is the largest remaining length MQTT allows (4 length bytes).
+const maxRemainingLength = 268435455
+
 func getConnectMessage(conn io.Closer) (*message.ConnectMessage, error) {
 	buf, err := getMessageBuffer(conn)
 	if err != nil {
@@ -80,8 +83,9 @@ func getMessageBuffer(c io.Closer) ([]byte, error) {
 
 	// Let's read enough bytes to get the message header (msg type, remaining length)
 	for {
-		// If we have read 5 bytes and still not done, then there's a problem.
-		if l > 5 {
+		// If we have read 5 bytes (the type byte and 4 remaining length bytes) and
+		// still not done, then there's a problem.
+		if l > 4 {
 			return nil, fmt.Errorf("connect/getMessage: 4th byte of remaining length has continuation bit set")
 		}
 
@@ -107,6 +111,9 @@ func getMessageBuffer(c io.Closer) ([]byte, error) {
 
 	// Get the remaining length of the message
 	remlen, _ := binary.Uvarint(buf[1:])
+	if remlen > maxRemainingLength {
+		return nil, fmt.Errorf("connect/getMessage: remaining length (%d) out of bound (max %d)", remlen, maxRemainingLength)
+	}
 	buf = append(buf, make([]byte, remlen)...)
 
 	for l < len(buf) {
